@@ -232,6 +232,19 @@ def lua_eval_expr(e, env):
         if e["op"] == "or":
             return lua_eval_expr(e["l"], env) or lua_eval_expr(e["r"], env)
         raise NotComparisonOnly("arithmetic operator %s" % e["op"])
+    if k == "Call":
+        # math.max / math.min / math.abs select one of their arguments (or its negation): still comparison-only
+        f = e["f"]
+        if f.get("k") == "Index" and f["obj"].get("k") == "Name" and f["obj"]["name"] == "math" and f["key"].get("k") == "String":
+            name = f["key"]["v"]
+            args = [lua_eval_expr(a, env) for a in e["args"]]
+            if name == "max" and args:
+                return max(args)
+            if name == "min" and args:
+                return min(args)
+            if name == "abs" and len(args) == 1:
+                return abs(args[0])
+        raise NotComparisonOnly("call of %s" % luaparse.show(f))
     raise NotComparisonOnly("construct %s" % k)
 
 
